@@ -8,6 +8,7 @@ package main
 import (
 	"fmt"
 	"go/types"
+	"strings"
 
 	"golang.org/x/tools/go/ssa"
 )
@@ -23,6 +24,7 @@ const (
 	evClose    = 5
 	evStat     = 6
 	evProbe    = 8
+	evGetVar   = 10 // EFIVars.GetVar(v, out) on a caller-supplied store: (name, attributes) of v
 )
 
 func (w *World) ghostDT(name string, fields []DTField) *DT {
@@ -264,7 +266,11 @@ func init() {
 	}
 	specFuncs["file"] = func(e *specEnv, args []SV) SV {
 		store, _ := e.x.storeGet(e.st)
-		return SV{V: TV{SSeqI, app("select", store, e.term(args[0]))}, T: types.NewSlice(types.Typ[types.Uint8])}
+		f := app("select", store, e.term(args[0]))
+		if !strings.Contains(f, "q_") {
+			e.facts = append(e.facts, app("g_isbytes", f)) // a file holds bytes
+		}
+		return SV{V: TV{SSeqI, f}, T: types.NewSlice(types.Typ[types.Uint8])}
 	}
 	// sameFilesExcept(p): every file other than p has the content and existence it had at entry
 	specFuncs["sameFilesExcept"] = func(e *specEnv, args []SV) SV {
@@ -309,6 +315,24 @@ func init() {
 	specFuncs["evClose"] = ev(evClose)
 	specFuncs["evStat"] = ev(evStat)
 	specFuncs["evProbe"] = ev(evProbe)
+	specFuncs["evGetVar"] = ev(evGetVar) // evGetVar(name, attributes)
+	// EFIVars.GetVar on a caller-supplied implementation: which variable is asked for is recorded on
+	// the trace; what the Unmarshallable receives is up to the implementation
+	ifaceMethods["GetVar"] = func(x *Exec, st *State, fr *Frame, cc *ssa.CallCommon, iv IfaceV, args []Val, instr ssa.Instruction) []Outcome {
+		if iv.Sym == "" || len(args) != 2 {
+			return nil
+		}
+		v := x.toTV(st, args[0], cc.Args[0].Type())
+		d := x.w.DTByName(v.S)
+		if d == nil || d.FieldIndex("Name") < 0 || d.FieldIndex("Attributes") < 0 {
+			return nil
+		}
+		x.traceAdd(st, evGetVar, d.Get(d.FieldIndex("Name"), v.E), d.Get(d.FieldIndex("Attributes"), v.E), sEmpty(SSeqI))
+		x.havocReachable(st, args[1])
+		f := st.fork()
+		return []Outcome{{f, x.freshErr(f, "getvar")}, {st, nilErr()}}
+	}
+	externDoc["interface method GetVar"] = "EFIVars.GetVar(v, out) of a caller-supplied store: recorded on the ghost trace as (v.Name, v.Attributes); whatever out can reach may change; may fail"
 	// events(e1, e2, ...): a sequence of events
 	specFuncs["events"] = func(e *specEnv, args []SV) SV {
 		ts := e.x.traceSort()
